@@ -251,12 +251,21 @@ func (e *Engine) harnessPrimitive(fr *frame, fn *ssa.Function, args []Value, g *
 		// uninterpreted function of up to 4 uint64 arguments, named by tag
 		tag := constStrArg(args[0])
 		var ts []*Term
-		for _, a := range args[1:] {
-			ts = append(ts, a.(*Term))
+		if sl, ok := args[1].(*SliceV); ok {
+			for i := 0; i < int(sl.Len.val); i++ {
+				ts = append(ts, e.sliceElem(sl, c64(int64(i))).(*Term))
+			}
 		}
-		return Apply("uf."+tag, BV(64), ts...), true
-	case "vBlockedHere":
-		return nil, true
+		return Apply(fmt.Sprintf("uf.%s.%d", tag, len(ts)), BV(64), ts...), true
+	case "vKnown":
+		id := constStrArg(args[0])
+		for _, k := range e.spec.KnownOpen {
+			if k == id {
+				e.note("known finding " + id + " is listed as open: its region is excluded here and checked by its own harness")
+				return tTrue, true
+			}
+		}
+		return tFalse, true
 	}
 	return nil, false
 }
